@@ -216,7 +216,12 @@ func RunProgram(w *world.World, policy string, size int, prog []Op, dur time.Dur
 				fail("c16-close-error", "Close returned %v", err)
 			}
 		case 'A':
-			time.Sleep(dur + time.Second)
+			if dur > 1000000*time.Hour {
+				// "never expires": a long time passes and nothing may expire
+				time.Sleep(100000 * time.Hour)
+			} else {
+				time.Sleep(dur + time.Second)
+			}
 		case 'F':
 			if !factoryClosed {
 				factoryClosed = true
